@@ -2647,6 +2647,16 @@ class CondTr(Generic[X, R], Trace[X, R]):
         return jnp.where(self.check, *map(get_score, self.trs))
 
 
+def _keep_visible(visible, x):
+    """Constraint `x` completed with the visible old choices: an address the constraint does
+    not mention keeps its visible old value (in both branches of a Cond)."""
+    if x is None:
+        return visible
+    if isinstance(x, dict) and isinstance(visible, dict):
+        return {**visible, **{k: _keep_visible(visible.get(k), v) for k, v in x.items()}}
+    return x
+
+
 def _cond_switch_correction(tr: CondTr, check) -> Weight:
     """Each branch weight is relative to that branch's own old sub-trace; when the
     condition changes, re-base it on the score of the branch that was visible."""
@@ -2769,6 +2779,7 @@ class Cond(Generic[X, R], GFI[X, R]):
         **kwargs,
     ) -> tuple[Trace[X, R], Weight, X]:
         (check, *rest_args) = args
+        x = _keep_visible(tr.get_choices(), x)
         new_tr, w, discard = self.callee.update(tr.trs[0], x, *rest_args, **kwargs)
         new_tr_, w_, discard_ = self.callee_.update(tr.trs[1], x, *rest_args, **kwargs)
         # Merge discarded values
